@@ -4,6 +4,7 @@ import SJ.Props.C09Stream
 import SJ.Props.StreamTyped
 import SJ.Props.C09LineCol
 import SJ.Props.C09RawNested
+import SJ.Props.C09Tok
 #print axioms SJ.Props.C09.c09_slice_reader
 #print axioms SJ.Props.C09.c09_str_slice_ignored
 #print axioms SJ.Props.C09.c09_str_slice_value
@@ -33,3 +34,7 @@ import SJ.Props.C09RawNested
 #print axioms SJ.Props.C09.c09_raw_one_slice_reader
 #print axioms SJ.Props.C09.c09_raw_nested_class
 #print axioms SJ.Props.C09.c09_raw_nested_str_slice
+#print axioms SJ.Props.C09Tok.c09_rv_slice_reader_tokenfree
+#print axioms SJ.Props.C09Tok.c09_rv_token_not_string_reader_later
+#print axioms SJ.Props.C09Tok.c09_ap_token_not_string_reader_later
+#print axioms SJ.Props.C09Tok.c09_token_sources_differ
